@@ -169,7 +169,11 @@ Theorem C10_source_facts :
   gen_peer_filter = four src_peer_filter /\ gen_cleanup_rule = four src_cleanup_rule /\
   gen_agent_slot = src_agent_slot /\
   gen_disconnect_handler_calls = src_disconnect_calls /\ gen_cleanup_loop_calls = src_cleanup_calls /\
-  gen_advertise_increments_metric = 3%N.
+  gen_advertise_increments_metric = 3%N /\
+  (* AddRoute is one write-lock region in every table; every Process*Advertise
+     stores the delivering peer as the next hop *)
+  gen_addroute_atomic = [true; true; true; true] /\
+  gen_learned_nexthop_is_delivering_peer = [true; true; true; true].
 Proof. repeat split; reflexivity. Qed.
 Print Assumptions C10_source_facts.
 
